@@ -408,7 +408,7 @@ pub fn gen_case(prop: &str, seed: u64, index: u64) -> (Case, usize) {
 
 // ------------------------------------------------------------------ C01
 
-pub fn oracle_c01(c: &Case, imp: &ImplRun, model: &mut Model, rep: &mut Report) {
+pub fn oracle_c01(c: &Case, imp: &ImplRun, model: &mut Model, rep: &mut Report, prop: &str) {
     let h = cfg_history(&imp.out.trace);
     rep.add("microsteps", h.microsteps as u64);
     rep.add("microsteps_multi_transition", h.multi_transition_steps as u64);
@@ -426,9 +426,9 @@ pub fn oracle_c01(c: &Case, imp: &ImplRun, model: &mut Model, rep: &mut Report) 
     };
     for (f, ts) in &h.faults {
         let sig = if f.contains("entered while active") && history_from_inside(ts) {
-            "C01:unclean-step:history-targeted-from-inside-its-parent".to_string()
+            format!("{}:unclean-step:history-targeted-from-inside-its-parent", prop)
         } else {
-            format!("C01:unclean-step:{}", f)
+            format!("{}:unclean-step:{}", prop, f)
         };
         rep.oracle_fail(
             &sig,
@@ -456,12 +456,12 @@ pub fn oracle_c01(c: &Case, imp: &ImplRun, model: &mut Model, rep: &mut Report) 
         }
         if ch != '1' {
             let sig = if history_from_inside(&h.boundary_ts[i]) {
-                "C01:illegal-configuration:history-targeted-from-inside-its-parent"
+                format!("{}:illegal-configuration:history-targeted-from-inside-its-parent", prop)
             } else {
-                "C01:illegal-configuration"
+                format!("{}:illegal-configuration", prop)
             };
             rep.oracle_fail(
-                sig,
+                &sig,
                 json!({"origin": c.origin, "xml": c.xml, "events": c.events, "single": c.single, "child": c.child, "boundary": i, "configuration": h.boundaries[i]}),
             );
         }
@@ -984,9 +984,13 @@ pub fn run(args: &Args, model: &mut Model, prop: &str) -> Report {
                 rep.count("cases_with_internal_events");
             }
             match prop {
-                "C01" => oracle_c01(c, imp, model, &mut rep),
+                "C01" => oracle_c01(c, imp, model, &mut rep, "C01"),
                 "C03" => oracle_c03(c, imp, &mut rep),
-                "C06" => oracle_c06(c, imp, &mut rep),
+                "C06" => {
+                    oracle_c06(c, imp, &mut rep);
+                    // what a history state restores must complete to a legal configuration
+                    oracle_c01(c, imp, model, &mut rep, "C06");
+                }
                 "C07" => oracle_c07(c, imp, &mut rep),
                 "C02" => oracle_c02(c, imp, &out.idle_before, &mut rep),
                 _ => {}
